@@ -7,6 +7,7 @@ import (
 	"time"
 
 	"ergo.services/ergo/gen"
+	"ergo.services/ergo/net/edf"
 
 	"verifsim/simkit"
 )
@@ -25,28 +26,43 @@ type C07Call struct {
 type C07Case struct {
 	Callees []string    `json:"callees"` // actor | meta
 	Callers [][]C07Call `json:"callers"`
+	// Remote: the callees (and the third-party responder) live on a second node; requests and replies
+	// cross a simulated network with latency, pooled links with skew and optionally the loss of one of the links
+	Remote    bool  `json:"remote,omitempty"`
+	LatencyMs int   `json:"latency_ms,omitempty"`
+	Pool      int   `json:"pool,omitempty"`
+	Skew      []int `json:"skew,omitempty"`
+	CutAtMs   int   `json:"cut_at_ms,omitempty"` // 0 = no cut
 }
 
 type c07 struct{}
 
 func init() { Register(c07{}) }
 
+func init() {
+	for _, v := range []any{c07Req{}, c07Reply{}} {
+		if err := edf.RegisterTypeOf(v); err != nil && err != gen.ErrTaken {
+			panic(err)
+		}
+	}
+}
+
 func (c07) ID() string    { return "C07" }
 func (c07) Level() string { return "exploration" }
 func (c07) NewCase() any  { return &C07Case{} }
 func (c07) Nontrivial() []string {
-	return []string{"call-timed-out", "late-reply-sent", "duplicate-reply-sent", "reply-from-other-process", "ref-low-word-cycled", "stale-replies-queued"}
+	return []string{"call-timed-out", "late-reply-sent", "duplicate-reply-sent", "reply-from-other-process", "ref-low-word-cycled", "stale-replies-queued", "remote-call-answered"}
 }
 func (c07) Rule() string {
 	return "case = 1-3 caller actors each making a sequence of calls (unique request ids) to 1-3 callees (actors, meta-processes); per request the callee replies now, " +
 		"asynchronously after a drawn delay (before/at/after the caller's timeout), twice, from another process, with an error, never, dies, or floods the caller with up to 12 stale replies; " +
 		"callers optionally mint bursts of references between calls (including exactly the burst that makes the reference counter's low word cycle). Timeouts run on the simulated clock. " +
-		"Oracle: a call returns its own reply or an error; a request is seen by the callee at most once; a reply is consumed at most once. " +
+		"In one case out of four the callees live on a second real node behind the simulated network (latency up to 0.9 s x skew, 1-3 pooled links with skew, optionally one of the links cut mid-run). Oracle: a call returns its own reply or an error; a request is seen by the callee at most once; a reply is consumed at most once. " +
 		"Non-trivial = a timeout, late/duplicate/foreign reply or reference cycle occurred; distinct = distinct (schedule, history) hashes."
 }
 func (c07) Components() ([]string, []string) {
-	return []string{"node (waitResponse, RouteSendResponse*, MakeRef)", "act.Actor request loop", "meta-process HandleCall path"},
-		[]string{"network disabled", "default logger disabled"}
+	return []string{"node (waitResponse, RouteSendResponse*, MakeRef)", "act.Actor request loop", "meta-process HandleCall path", "remote cases: net/proto request/response frames, net/handshake, net/edf over the simulated transport"},
+		[]string{"local cases: network disabled", "remote cases: TCP replaced by simkit.SimNet, static registrar", "default logger disabled"}
 }
 
 func (c07) Generate(r *simkit.Rand, tier string) any {
@@ -57,6 +73,17 @@ func (c07) Generate(r *simkit.Rand, tier string) any {
 	maxCalls := 4
 	if tier == "thorough" {
 		maxCalls = 6
+	}
+	if r.Chance(0.25) {
+		c.Remote = true
+		c.LatencyMs = simkit.Pick(r, 1, 1, 5, 50, 200, 600)
+		c.Pool = r.Range(1, 3)
+		for i := 0; i < 2*c.Pool; i++ {
+			c.Skew = append(c.Skew, simkit.Pick(r, 1, 1, 2, 10))
+		}
+		if c.Pool > 1 && r.Chance(0.4) {
+			c.CutAtMs = r.Range(1, 6000)
+		}
 	}
 	for i, n := 0, r.Range(1, 3); i < n; i++ {
 		var calls []C07Call
@@ -91,6 +118,21 @@ func (c07) Generate(r *simkit.Rand, tier string) any {
 func (c07) Shrink(cc any) []any {
 	c := cc.(*C07Case)
 	var out []any
+	if c.Remote {
+		n := cloneJSON(c)
+		n.Remote, n.CutAtMs, n.LatencyMs, n.Pool, n.Skew = false, 0, 0, 0, nil
+		out = append(out, n)
+		if c.CutAtMs > 0 {
+			n := cloneJSON(c)
+			n.CutAtMs = 0
+			out = append(out, n)
+		}
+		if c.Pool > 1 {
+			n := cloneJSON(c)
+			n.Pool, n.Skew = 1, nil
+			out = append(out, n)
+		}
+	}
 	for i := range c.Callers {
 		if len(c.Callers) > 1 {
 			n := cloneJSON(c)
@@ -139,11 +181,34 @@ type c07Async struct {
 
 func (c07) Run(e *simkit.Env, cc any) {
 	c := cc.(*C07Case)
-	n := simkit.StartLocalNode(e, "c07@sim", nil)
-	if n == nil {
-		return
+	var n, cn gen.Node // n: the callers' node, cn: the callees' node
+	var sn *simkit.SimNet
+	if c.Remote {
+		sn = simkit.NewSimNet(e)
+		sn.MinLatency, sn.Jitter = time.Millisecond, time.Millisecond // until the connection stands
+		sn.Skew = c.Skew
+		sn.Segment = 1
+		n = simkit.StartNetNode(e, sn, simkit.NetNodeOptions{Name: "a@h1", Cookie: "k", PoolSize: c.Pool})
+		cn = simkit.StartNetNode(e, sn, simkit.NetNodeOptions{Name: "b@h2", Cookie: "k", PoolSize: c.Pool})
+		if n == nil || cn == nil {
+			return
+		}
+		defer simkit.StopNode(e, cn, false, 0)
+		defer simkit.StopNode(e, n, false, 0)
+		if _, err := n.Network().GetNode("b@h2"); err != nil {
+			e.Infra("connect a -> b: " + err.Error())
+			return
+		}
+		e.Settle(2 * time.Second) // pooled links joined
+		sn.SetLatency(time.Duration(c.LatencyMs)*time.Millisecond, time.Duration(c.LatencyMs)*time.Millisecond/2)
+	} else {
+		n = simkit.StartLocalNode(e, "c07@sim", nil)
+		if n == nil {
+			return
+		}
+		defer simkit.StopNode(e, n, false, 0)
+		cn = n
 	}
-	defer simkit.StopNode(e, n, false, 0)
 	var mu sync.Mutex
 	seen := map[int]int{}     // request id -> times presented to a callee
 	consumed := map[int]int{} // reply serial -> times returned by a Call
@@ -174,7 +239,7 @@ func (c07) Run(e *simkit.Env, cc any) {
 		}
 		return nil
 	}
-	otherPID, err := n.Spawn(ProbeFactory(oh), gen.ProcessOptions{})
+	otherPID, err := cn.Spawn(ProbeFactory(oh), gen.ProcessOptions{})
 	if err != nil {
 		e.Infra("spawn other: " + err.Error())
 		return
@@ -276,13 +341,13 @@ func (c07) Run(e *simkit.Env, cc any) {
 			return nil
 		}
 		name := gen.Atom(fmt.Sprintf("callee%d", i))
-		pid, err := n.SpawnRegister(name, ProbeFactory(h), gen.ProcessOptions{})
+		pid, err := cn.SpawnRegister(name, ProbeFactory(h), gen.ProcessOptions{})
 		if err != nil {
 			e.Infra("spawn callee: " + err.Error())
 			return
 		}
 		callees[i].pid, callees[i].name = pid, name
-		n.Send(pid, "setup")
+		cn.Send(pid, "setup")
 	}
 	e.Settle(time.Millisecond)
 	if e.Failed() {
@@ -322,6 +387,8 @@ func (c07) Run(e *simkit.Env, cc any) {
 				switch {
 				case c.Callees[cl.Callee] == "meta":
 					to = ce.meta
+				case cl.Mode == "name" && c.Remote:
+					to = gen.ProcessID{Name: ce.name, Node: cn.Name()}
 				case cl.Mode == "name":
 					to = ce.name
 				case cl.Mode == "alias":
@@ -349,6 +416,17 @@ func (c07) Run(e *simkit.Env, cc any) {
 			n.Send(pid, "go")
 			if !e.WaitChan(done, 30*time.Minute) {
 				e.Fail("C07/call-hangs", "%s did not finish its calls within 30 simulated minutes (a call neither returned nor timed out)", who)
+			}
+		})
+	}
+	if c.CutAtMs > 0 {
+		e.Go("cutter", func() {
+			e.Sleep(time.Duration(c.CutAtMs) * time.Millisecond)
+			// one of several links only: losing every link while the peer stays up runs into the
+			// re-dial loop recorded as a known finding of C14
+			if links := sn.LiveLinks(); len(links) > 1 {
+				links[c.CutAtMs%len(links)].Cut()
+				e.Fault("one-link-cut")
 			}
 		})
 	}
@@ -385,6 +463,11 @@ func (c07) Run(e *simkit.Env, cc any) {
 							}
 						}
 					}
+					if c.Remote && (c.CutAtMs > 0 || 4*c.LatencyMs*10 >= o.call.Timeout*1000) {
+						// the reply may be lost with the connection, or two one-way trips over the
+						// slowest link (latency x 1.5 x skew 10) may not fit into the timeout
+						excused = true
+					}
 					if !excused && seen[o.id] == 1 {
 						e.Fail("C07/reply-lost", "call %d was answered immediately by a live callee, the caller had no stale replies pending, yet the call timed out", o.id)
 						return
@@ -395,6 +478,9 @@ func (c07) Run(e *simkit.Env, cc any) {
 		}
 		switch v := o.val.(type) {
 		case c07Reply:
+			if c.Remote {
+				e.Probe("remote-call-answered")
+			}
 			if v.Req != o.id {
 				e.Fail("C07/wrong-reply", "call %d (%s) returned the reply made for request %d (reply serial %d)", o.id, o.call.Behavior, v.Req, v.Serial)
 				return
